@@ -251,9 +251,13 @@ func hash64(s string) uint64 {
 func (r *Rec) observe(sub string, c any, o *Obs) {
 	r.mu.Lock()
 	defer r.mu.Unlock()
-	r.evals += 1 + o.extra
+	n := o.extra // evaluations counted by the property itself, else the case counts as one
+	if n == 0 {
+		n = 1
+	}
+	r.evals += n
 	st := r.subs[sub]
-	st.Evaluations += 1 + o.extra
+	st.Evaluations += n
 	st.Cases++
 	for _, l := range o.labels {
 		r.labels[l]++
